@@ -2278,7 +2278,7 @@ class HDKey(Key):
             index |= 0x80000000
             data = b'\0' + self.private_byte + index.to_bytes(4, 'big')
         else:
-            data = self.public_byte + index.to_bytes(4, 'big')
+            data = self.public_compressed_byte + index.to_bytes(4, 'big')
         key, chain = self._key_derivation(data)
 
         key = int.from_bytes(key, 'big')
@@ -2322,7 +2322,7 @@ class HDKey(Key):
             network = self.network.name
         if index >= 0x80000000:
             raise BKeyError("Cannot derive hardened key from public private key. Index must be less than 0x80000000")
-        data = self.public_byte + index.to_bytes(4, 'big')
+        data = self.public_compressed_byte + index.to_bytes(4, 'big')
         key, chain = self._key_derivation(data)
         key = int.from_bytes(key, 'big')
         if key >= secp256k1_n:
